@@ -940,6 +940,9 @@ def e2e_oracle(proj: dict, opts: dict, p: subprocess.CompletedProcess, loglines:
     alive: T.Dict[T.Tuple[int, int], bool] = {}
     started: T.Dict[T.Tuple[int, int], int] = {}
     ended: T.Dict[T.Tuple[int, int], str] = {}
+    # a test killed so hard that it could not write its K line has an unknown end: keep it out of the overlap
+    # bookkeeping (no false alarm), it still counts as started
+    has_end = {(int(l.split()[1]), int(l.split()[2]) - 1) for l in loglines if l[:1] in 'EK'}
     for line in loglines:
         tag, tid, it, _ts = line.split()
         k = (int(tid), int(it) - 1)
@@ -953,7 +956,8 @@ def e2e_oracle(proj: dict, opts: dict, p: subprocess.CompletedProcess, loglines:
                 if not tests[j[0]]['par'] or not tests[k[0]]['par']:
                     bad.append(('serial-overlap', f'test {k[0]} started while test {j[0]} was running '
                                 f'(parallel: {tests[k[0]]["par"]}, {tests[j[0]]["par"]})'))
-            alive[k] = True
+            if k in has_end:
+                alive[k] = True
             if len(alive) > jobs:
                 bad.append(('job-bound', f'{len(alive)} tests running with --num-processes {jobs}'))
         else:
@@ -963,11 +967,12 @@ def e2e_oracle(proj: dict, opts: dict, p: subprocess.CompletedProcess, loglines:
     for j in jl:
         by[(j['name'].split(':')[-1], j['iter'])] = j
     results = {}
+    notrep: T.List[T.Tuple[int, int]] = []
     for k in started:
         t = tests[k[0]]
         j = by.get((t['name'], k[1]))
         if j is None:
-            bad.append(('not-reported', f'test {k[0]} iteration {k[1]} started but is not in testlog.json'))
+            notrep.append(k)
             continue
         results[k] = j['result']
         got = j['result']
@@ -1005,6 +1010,12 @@ def e2e_oracle(proj: dict, opts: dict, p: subprocess.CompletedProcess, loglines:
         bad.append(('testlog-json', f'{len(jl)} entries in testlog.json for {len(started)} started tests'))
     nbad = sum(1 for r in results.values() if r in BAD)
     cut_allowed = (maxfail > 0 and nbad >= maxfail) or (R > 1 and nbad >= 1)
+    for k in notrep:
+        if maxfail > 0 and nbad >= maxfail and k in ended:
+            bad.append(('KNOWN:lost-result-on-maxfail-cancel', f'test {k[0]} iteration {k[1]} ended but --maxfail '
+                        'cancelled the run before its result was reported'))
+        else:
+            bad.append(('not-reported', f'test {k[0]} iteration {k[1]} started but is not in testlog.json'))
     missing = [(i, it) for it in range(R) for i in sel if (i, it) not in started and (i, it) not in results]
     if missing and not cut_allowed:
         bad.append(('not-started', f'selected tests never started although the run was not cut short: {missing[:6]}'))
@@ -1089,8 +1100,8 @@ def e2e_stream(ctx: Ctx, nproj: int, nruns: int) -> None:
                 case = {'stream': 'e2e', 'project': proj, 'opts': o, 'seed': ctx.seed}
                 e2e_bad = e2e_oracle(proj, o, p, loglines, jl, sel_run)
                 for kind, msg in e2e_bad:
-                    ctx.violation('e2e:' + kind + ':' + json.dumps([proj, o], sort_keys=True), msg,
-                                  dict(case, kind=kind, stdout=p.stdout[-800:], log=loglines[:40]))
+                    key = kind[6:] if kind.startswith('KNOWN:') else 'e2e:' + kind + ':' + json.dumps([proj, o], sort_keys=True)
+                    ctx.violation(key, msg, dict(case, kind=kind, stdout=p.stdout[-800:], log=loglines[:40]))
                 if e2e_bad and len(ctx.violations) >= 3:
                     return          # enough failing inputs; do not spend minutes on a broken tree
                 # the model must accept the logged trace as well
